@@ -32,16 +32,18 @@ def contents():
         CONTENT[name + "0"] = g3[i].svg()
         CONTENT[name + "1"] = g3b[i].svg()
     CONTENT["X0"] = CONTENT["X1"] = g3[2].svg()
+    CONTENT["S0"] = CONTENT["S1"] = g3b[2].svg()
     return CONTENT
 
 
 # a quality floor pngquant cannot reach on gradient artwork: it exits 99 and the wrapper step falls back to the unquantised bitmap
 PQ_STRICT = "--speed 1 --skip-if-larger --quality 100-100"
 # X: a source whose file name carries no codepoints -- the glyph-map step refuses it, the final inputs do not build
-FILES = {"A": "emoji_ue000.svg", "B": "emoji_ue001.svg", "C": "emoji_ue003.svg", "X": "sun.svg"}
+# S: a two-codepoint sequence (the only source that puts a ligature into the generated feature file)
+FILES = {"A": "emoji_ue000.svg", "B": "emoji_ue001.svg", "C": "emoji_ue003.svg", "X": "sun.svg", "S": "emoji_ue000_200d_e001.svg"}
 DEFAULT_OPTS = {"color_format": "glyf_colr_1"}
 EVENTS = [
-    ["add", "C"], ["add", "X"], ["remove", "X"], ["remove", "B"], ["modify", "A"], ["touch", "A"], ["rename", "A", "C"], ["rename", "A", "B"],
+    ["add", "C"], ["add", "X"], ["remove", "X"], ["add", "S"], ["remove", "S"], ["remove", "B"], ["modify", "A"], ["touch", "A"], ["rename", "A", "C"], ["rename", "A", "B"],
     ["opt", "color_format", "picosvg"], ["opt", "color_format", "cbdt"], ["opt", "metrics", "1000,800,-200"], ["opt", "reuse_tolerance", -1],
     ["opt", "clip_to_viewbox", False], ["opt", "clipbox_quantization", 64], ["opt", "bitmap_resolution", 64], ["opt", "use_pngquant", False],
     ["opt", "use_zopflipng", False], ["opt", "pngquant_flags", PQ_STRICT],
